@@ -120,6 +120,10 @@ class ConstT(Ty):
         self.value = value
 
     def fresh(self, I, name):
+        if isinstance(self.value, (dict, list, set, bytearray)):
+            import copy
+
+            return copy.deepcopy(self.value)  # mutable constants are per path
         return self.value
 
 
